@@ -318,7 +318,7 @@ func VerifC03SendToExternal() {
 }
 
 func verifBridgeToken(p string) *MsgBridgeTokenClaim {
-	maxLen := rt.Bound("maxFreeText", 3, 4)
+	maxLen := rt.Bound("maxFreeText", 3, 3)
 	lens := make([]int, 0, maxLen)
 	for l := 1; l <= maxLen; l++ {
 		lens = append(lens, l)
@@ -355,7 +355,7 @@ func verifOracleSetUpdated(p string, n int) *MsgOracleSetUpdatedClaim {
 
 func VerifC03OracleSetUpdated() {
 	verifSetup()
-	maxM := rt.Bound("maxMembers", 2, 3)
+	maxM := rt.Bound("maxMembers", 2, 2)
 	a := verifOracleSetUpdated("a.", 1+rt.Choose("a.members", maxM))
 	b := verifOracleSetUpdated("b.", 1+rt.Choose("b.members", maxM))
 	b.EventNonce = a.EventNonce // same event nonce (the quantifier of the property)
